@@ -66,6 +66,26 @@ def run(tier: str, seed: int) -> int:
             cov.setdefault('edges_replayed', 0)
             cov['edges_replayed'] += st.get('edges_replayed', 0)
             recs.append(out)
+        # 2b. EntityFixup as a whole mapping (FixupMap): spellings, values, indexes, export order
+        for cfg in ('FixupMap_mc.cfg',):
+            r = run_tlc('FixupMap', cfg)
+            core.require_mc(r, cfg)
+            cov['models'][cfg] = {'generated': r.generated, 'distinct': r.distinct, 'depth': r.depth}
+            cov['states'] += r.distinct
+            cov['transitions'] += r.generated
+        fedges, r = core.dump_edges('FixupMap', 'FixupMap_edges.cfg')
+        fops = {}
+        for e in fedges:
+            fops[e['a']['op']] = fops.get(e['a']['op'], 0) + 1
+        if not {'set', 'del', 'get', 'setdefault', 'clear', 'copy'} <= set(fops):
+            raise core.MachineryError(f'vacuous FixupMap model: {fops}')
+        cov['fixmap_actions'] = fops
+        ef = work.path('fixmap_edges.json')
+        ef.write_text(json.dumps(fedges))
+        fm_out = work.path('fixmap.ndjson')
+        core.run_driver('c08_driver.py', ['fixmap', ef, fm_out], env={'VERIF_SEED': seed, 'VERIF_TIER': tier})
+        cov['edges_replayed'] += len(fedges)
+        edge_total += len(fedges)
         want = {'create', 'copy', 'detach', 'attach', 'drop', 'fixset', 'fixdel'}
         if not want <= set(actions):
             raise core.MachineryError(f'vacuous model: actions never taken: {want - set(actions)}')
@@ -87,6 +107,11 @@ def run(tier: str, seed: int) -> int:
             cov['transitions'] += st['transitions']
             rs = core.read_ndjson(p)
             samples.append({k: v for k, v in rs[len(rs) // 2].items() if k != 'doc'})
+        mism, st = core.validate_records('FixupMapTrace', 'FixupMapTrace.cfg', fm_out, work=work)
+        allm += mism
+        total += st['records']
+        cov['states'] += st['states']
+        cov['transitions'] += st['transitions']
         cov['traces_validated_against_impl'] = total
         cov['records_validated'] = total
         cov['mismatches'] = len(allm)
